@@ -60,9 +60,44 @@ def id_buffers_ok(F):
     return True
 
 
+AP = "mqtt::common::arc_payload::ArcPayload"
+_arc = {}
+
+
+def arc_model(F):
+    """What ArcPayload::new / default / len do, read off their abstract paths (default configuration: one `Large` variant):
+    len() returns the `length` field, new(data, start, length) stores its third argument there, default() stores a constant."""
+    if F.hash in _arc:
+        return _arc[F.hash]
+    m = {"ok": False}
+    try:
+        ex = explore.Explorer(F)
+        lens = [p.ret for p in ex.run(AP + "::len") if p.kind == "return"]
+        fld = None
+        if len(lens) == 1 and lens[0][0] == "sym" and lens[0][1][0] == "field" and lens[0][1][1] == ("init", ("self",), ()):
+            fld = lens[0][1][2]
+        news = [p.ret for p in ex.run(AP + "::new") if p.kind == "return"]
+        defs = [p.ret for p in ex.run("<" + AP + " as std::default::Default>::default") if p.kind == "return"]
+        flds = {f["name"]: f["i"] for v in F.adt(AP)["variants"] for f in v["fields"]}
+        if fld in flds and len(F.adt(AP)["variants"]) == 1 and len(news) == 1 and news[0][0] == "agg" and len(defs) == 1 and defs[0][0] == "agg":
+            i = flds[fld]
+            nv = news[0][3][i]
+            dv = defs[0][3][i]
+            fn = F.fns[AP + "::new"]
+            names = fn.get("names", {})
+            argi = [k for k in range(1, fn["argc"] + 1) if nv == ("sym", ("arg", names.get(str(k))))]
+            if argi and dv[0] == "c":
+                m = {"ok": True, "new_arg": argi[0] - 1, "default_len": dv[1], "field": i}
+    except Exception:
+        pass
+    _arc[F.hash] = m
+    return m
+
+
 class Acct:
-    def __init__(self, F):
+    def __init__(self, F, consumed_facts=None):
         self.F = F
+        self.consumed_facts = consumed_facts      # callee post-conditions consumed <= len(input) (proved by C04-R6)
 
     def run(self, ver, kind, bfn, parser=False):
         F = self.F
@@ -123,7 +158,8 @@ class Acct:
                 if len(items) < 2:
                     rec["undecided"].append("serialiser emits fewer than two sources")
                     continue
-                ctx = Ctx(F, S, fields, exp, lin)
+                ctx = Ctx(F, S, fields, exp, lin, parser=parser)
+                rec.setdefault("leaf_used", set())
                 # item 1 must be the Remaining Length: a VBI field of S
                 rlv = ctx.vbi_of_item(items[1])
                 if rlv is None:
@@ -159,8 +195,11 @@ class Acct:
                     rec["diff"].append({"why": "entries are serialised but build() does not add their sizes", "build": ctx.show(L), "serialised": ctx.show(tot)})
                     continue
                 facts = [ctx.canon(f) for f in lin.facts_of_cons(q.cons)]
+                if parser and self.consumed_facts is not None:
+                    facts += [ctx.canon(f) for f in self.consumed_facts(F, p, lin, exp)]
                 d1 = linear.lin_add(L2, tot, -1)
                 d2 = linear.lin_add(tot, L2, -1)
+                rec["leaf_used"] |= ctx.leaf_used
                 if linear.entails(facts, d1) and linear.entails(facts, d2):
                     rec["ok"] += 1
                 else:
@@ -179,7 +218,7 @@ class Acct:
                         rec["undecided"].append("property length is not from_u32(..)")
                         continue
                     la = ctx.canon(lin.of_value(a))
-                    want = ({("SIZE", nx): 1}, 0)
+                    want = ctx.size_atom(nx)
                     if la == want:
                         rec["prop_ok"] += 1
                     else:
@@ -188,8 +227,10 @@ class Acct:
 
 
 class Ctx:
-    def __init__(self, F, S, fields, exp, lin):
+    def __init__(self, F, S, fields, exp, lin, parser=False):
         self.F, self.S, self.fields, self.exp, self.lin = F, S, fields, exp, lin
+        self.parser = parser
+        self.leaf_used = set()
 
     # ---- values
     def resolve(self, v):
@@ -239,7 +280,53 @@ class Ctx:
             return linear.atom(IDLEN)
         if v[0] == "arr":
             return linear.const(len(v[1]))
+        if v[0] == "vec" and not v[1]:
+            return linear.const(0)
+        if v[0] == "agg" and v[1] == AP and arc_model(self.F)["ok"]:
+            return self.canon(self.lin.of_value(v[3][arc_model(self.F)["field"]]))
+        if v[0] == "sym" and v[1][0] == "call":
+            nm = v[1][1]
+            args = [x for x in v[1][2] if not (isinstance(x, tuple) and x and x[0] == "targs")]
+            am = arc_model(self.F)
+            if am["ok"] and nm == AP + "::new" and len(args) > am["new_arg"]:
+                return self.canon(self.lin.of_value(args[am["new_arg"]]))          # ArcPayload::new(data, start, length).len() == length
+            if am["ok"] and nm.endswith("ArcPayload as std::default::Default>::default"):
+                return linear.const(am["default_len"])
+            if nm.split("::")[-1] == "new" and not args and ("Vec" in nm or "Properties" in nm):
+                return linear.const(0)                                  # an empty list
         return linear.atom(("SIZE", v))
+
+    def consumed_atom(self, a):
+        """`.1` of the Ok payload of a leaf decoder call = bytes consumed; under LEAF-CANON (C04-R8 / A-LEAF) that is the
+        encoded size of the decoded value."""
+        if not (isinstance(a, tuple) and len(a) == 3 and a[0] == "field" and a[2] == 1):
+            return None
+        inner = self.exp(a[1]) if isinstance(a[1], tuple) else a[1]
+        if not (isinstance(inner, tuple) and len(inner) == 3 and inner[0] == "field" and inner[2] == 0):
+            return None
+        c = self.exp(inner[1]) if isinstance(inner[1], tuple) else inner[1]
+        if not (isinstance(c, tuple) and c and c[0] == "call"):
+            return None
+        val = ("sym", ("field", ("field", c, 0), 0))
+        nm = c[1]
+        if nm.endswith("MqttString::decode") or nm.endswith("MqttBinary::decode"):
+            self.leaf_used.add(nm.split("::")[-2] + "::decode")
+            return self.size_atom(val)
+        if nm.endswith("PropertiesParse>::parse"):
+            self.leaf_used.add("Properties::parse")
+            # the length prefix the parser stores for this list: the VBI field built as from_u32(size(list))
+            want = ({("SIZE", self.resolve(val)): 1}, 0)
+            saved, self.parser = self.parser, False        # compare without substituting (the Remaining Length itself contains `a`)
+            try:
+                for fd, fv in zip(self.fields, self.S[3]):
+                    if fd["ty"].endswith("VariableByteInteger"):
+                        a0 = self.from_u32_arg(fv)
+                        if a0 is not None and self.canon(self.lin.of_value(a0)) == want:
+                            return linear.lin_add(self.size_atom(fv), want)
+            finally:
+                self.parser = saved
+            return None
+        return None
 
     # ---- serialiser items
     def enc(self, it):
@@ -263,7 +350,7 @@ class Ctx:
             return None
         if k == "nested":
             v = self.nested_of_item(it)
-            return linear.atom(("SIZE", v)) if v is not None else None
+            return self.size_atom(v) if v is not None else None
         if k == "c":
             return linear.const(1)
         if k == "sym":
@@ -323,6 +410,10 @@ class Ctx:
                     return linear.atom(IDLEN)
         if isinstance(a, tuple) and a and a[0] == "len":
             return self.size_atom(a[1])
+        if self.parser:
+            r = self.consumed_atom(a)
+            if r is not None:
+                return r
         return linear.atom(a)
 
     def canon(self, l):
